@@ -369,7 +369,13 @@ func (g *Gen) genC17(n int) error {
 		s2, _ := g.smallSegForFaults()
 		mf := g.fresh("f")
 		d1, d2 := g.randDrops(g.ndocs[o]), g.randDrops(g.ndocs[s2])
-		g.emit("mergefaults %s segs=%s,%s drops=%s|%s max=%d", mf, o, s2, d1, d2, g.tierN(150, 600))
+		if i%6 == 1 {
+			// unbuffered output (a non-positive buffer size falls back to the default) and faults that pass
+			g.emit("cfg mergebuf=%d", []int{0, -1, 16}[g.r.Intn(3)])
+			g.emit("mergefaults %s segs=%s,%s drops=%s|%s max=%d transienttail=%d", mf, o, s2, d1, d2, 60, 260)
+		} else {
+			g.emit("mergefaults %s segs=%s,%s drops=%s|%s max=%d", mf, o, s2, d1, d2, g.tierN(150, 600))
+		}
 		m := g.fresh("m")
 		g.emit("open %s %s", m, mf)
 		u := newUniverse()
